@@ -180,3 +180,31 @@ pub fn slope_dust_norm(amp: u64, raw: &[u128], decimals: &[u8]) -> U1024 {
     }
     b(4) * m + b(4) * pow10(NORM_DEC - *decimals.iter().min().unwrap() as u32)
 }
+
+/// Is `minted` explained by "LP minted from the invariant over RAW base-unit amounts" (the known
+/// behaviour of the stableswap pair with unequal decimals)? True iff
+/// minted <= S * (Draw1 - Draw0) / Draw0 with both raw invariants known to +-2 units (or the
+/// slope-scaled dust in heavily imbalanced pools).
+pub fn explained_by_raw_invariant(amp: u64, r0: [u128; 2], r1: [u128; 2], supply: u128, minted: u128) -> bool {
+    let d0 = stable_d(amp, &[b(r0[0]), b(r0[1])]);
+    let d1 = stable_d(amp, &[b(r1[0]), b(r1[1])]);
+    let d0_lo = d0.saturating_sub(b(2));
+    if d0_lo.is_zero() {
+        return false;
+    }
+    let lhs = b(minted) * d0_lo;
+    if lhs <= b(supply) * ((d1 + b(2)).saturating_sub(d0_lo)) {
+        return true;
+    }
+    // slope-scaled dust on the raw curve
+    let mut m = U1024::one();
+    for i in 0..2 {
+        let mut r = r0;
+        r[i] += 1;
+        let s = stable_d(amp, &[b(r[0]), b(r[1])]).saturating_sub(d0);
+        if s > m {
+            m = s;
+        }
+    }
+    lhs <= b(supply) * ((d1 + b(4) + b(4) * m).saturating_sub(d0_lo))
+}
